@@ -276,3 +276,97 @@ def target_zhit():
 
 def c08_targets():
     return [target_zhit()]
+
+
+# ------------------------------------------------------------------------------------------------ Kramers-Kronig producers
+EXPL = "analysis/kramers_kronig/exploratory"
+
+
+class _Circuit:
+    def __init__(self, name):
+        self.term = T.var(name)
+
+    def get_impedances(self, f):
+        return opaque("circuit.get_impedances")(self.term, f)
+
+    def get_elements(self, *a, **k):
+        return []
+
+
+def target_kk_producer(fname: str, worker: str):
+    """_use_matrix_inversion / _use_least_squares_fitting: the pseudo chi-squared stored with each fitted circuit is
+    chisqr(Z_exp, circuit.get_impedances(f), weight = Boukamp weight of the IMPEDANCES), i.e. the sum of |residual|^2 of C08's
+    algebra, whatever representation the fit itself used; circuits, num_RCs and chi-squares stay paired."""
+    def run(sess: Session):
+        for admittance in (False, True):
+            f, Zexp, w_in = T.var("f"), T.var("Z_exp"), T.var("fit_weight")
+            circuits = {3: _Circuit("circuit3"), 5: _Circuit("circuit5"), 4: _Circuit("circuit4")}
+            kkfits = []
+
+            def KKFits(**kw):
+                kkfits.append(kw)
+                return kw
+            ns = {worker: lambda args: (args[4], circuits[args[4]]), "map": map, "_boukamp_weight": opaque("kk._boukamp_weight"),
+                  "_calculate_pseudo_chisqr": opaque("_calculate_pseudo_chisqr"), "_KKFits": KKFits, "sorted": sorted}
+            O.load(EXPL, [fname], ns)
+            kwargs = dict(test="complex", f=f, Z_exp=Zexp, weight=w_in, num_RCs=[3, 5, 4], add_capacitance=True, admittance=admittance, log_F_ext=0.0, prog=None)
+            if fname == "_use_least_squares_fitting":
+                kwargs["add_inductance"] = True
+            ns[fname](**kwargs)
+            tag = f"[{fname},admittance={admittance}]"
+            sess.check("post", [], z3.BoolVal(len(kkfits) == 1 and kkfits[0].get("num_RCs") == [3, 4, 5] and kkfits[0].get("circuits") == [circuits[3], circuits[4], circuits[5]]), 0, label=f"circuits sorted by num_RC, pairs kept{tag}")
+            if len(kkfits) == 1:
+                for n_, chi in zip(kkfits[0]["num_RCs"], kkfits[0]["pseudo_chisqrs"]):
+                    want = opaque("_calculate_pseudo_chisqr")(Zexp, circuits[n_].get_impedances(f), opaque("kk._boukamp_weight")(Zexp, admittance=False))
+                    eq_check(sess, f"pseudo_chisqr[num_RC={n_}] == chisqr(Z_exp, circuit.get_impedances(f), weight(Z_exp as impedance)){tag}", chi, want)
+    return (f"{EXPL}:{fname}", EXPL, fname, run)
+
+
+def target_kk_results():
+    """evaluate_log_F_ext, result assembly: every KramersKronigResult carries frequencies = data.get_frequencies(), impedances =
+    circuit.get_impedances(frequencies), residuals = residuals(data.get_impedances(), impedances) and the chi-square paired with
+    that circuit"""
+    qual = "evaluate_log_F_ext"
+
+    def run(sess: Session):
+        import ast as _ast
+        from pyvc.core import find_def, strip_docstring
+        fn = find_def(EXPL, qual)
+        body = strip_docstring(fn.body)
+        start = None
+        for i, s_ in enumerate(body):
+            if isinstance(s_, (_ast.AnnAssign, _ast.Assign)) and "data.get_frequencies()" in _ast.unparse(s_):
+                start = i
+        if start is None:
+            sess.unsupported("result assembly of evaluate_log_F_ext not found", fn.lineno)
+            return
+        sub = _ast.FunctionDef(name="assembly", args=_ast.arguments(posonlyargs=[], args=[_ast.arg(arg=a) for a in ("data", "evaluations", "test")], kwonlyargs=[], kw_defaults=[], defaults=[]),
+                               body=body[start:], decorator_list=[], lineno=body[start].lineno, col_offset=0, end_lineno=body[-1].end_lineno, end_col_offset=0)
+        mod_ = _ast.Module(body=[O.strip(sub)], type_ignores=[])
+        _ast.fix_missing_locations(mod_)
+        made = []
+
+        def Result(**kw):
+            made.append(kw)
+            return ("result", len(made))
+        c1, c2 = _Circuit("c1"), _Circuit("c2")
+        from types import SimpleNamespace
+        fits = SimpleNamespace(circuits=[c1, c2], pseudo_chisqrs=[T.var("chi1"), T.var("chi2")], log_F_ext=0.0, num_RCs=[3, 4])
+        ns = {"KramersKronigResult": Result, "_calculate_residuals": opaque("_calculate_residuals"), "isinstance": isinstance, "str": str, "sorted": sorted, "zip": zip}
+        exec(compile(mod_, "<exploratory:evaluate_log_F_ext[assembly]>", "exec"), ns)
+        data = T.var("data")
+        out = ns["assembly"](data, [(fits, 0.5)], "complex")
+        sess.check("post", [], z3.BoolVal(len(made) == 2 and len(out) == 1), 0, label="one result per fitted circuit")
+        for kw, c, chi in zip(made, (c1, c2), fits.pseudo_chisqrs):
+            eq_check(sess, "frequencies == data.get_frequencies()", kw["frequencies"], data.get_frequencies())
+            eq_check(sess, "impedances == circuit.get_impedances(frequencies)", kw["impedances"], c.get_impedances(data.get_frequencies()))
+            eq_check(sess, "residuals == residuals(data.get_impedances(), impedances)", kw["residuals"], opaque("_calculate_residuals")(Z_exp=data.get_impedances(), Z_fit=kw["impedances"]))
+            sess.check("post", [], z3.BoolVal(kw["circuit"] is c and kw["pseudo_chisqr"] is chi), 0, label="circuit and its own pseudo chi-squared stay paired")
+    return (f"{EXPL}:{qual}[assembly]", EXPL, qual, run)
+
+
+_c08_zhit_only = c08_targets
+
+
+def c08_targets():       # noqa: F811
+    return _c08_zhit_only() + [target_kk_producer("_use_matrix_inversion", "_inversion_test"), target_kk_producer("_use_least_squares_fitting", "_leastsq_test"), target_kk_results()]
